@@ -314,13 +314,16 @@ pub struct CoreModel {
 }
 
 /// evaluate a core (struct / enum) with builders and parsers summarised
-pub fn core_model(cx: &Cx, kind: &str) -> Option<CoreModel> {
+pub fn core_model(cx: &Cx, kind: &str) -> Option<CoreModel> { core_model_with(cx, kind, &[]) }
+/// `record`: functions whose calls are recorded as Push events (receiver and arguments)
+pub fn core_model_with(cx: &Cx, kind: &str, record: &[String]) -> Option<CoreModel> {
     let ix = &cx.ix;
     let role = cx.roles.iter().find(|r| r.item_kind == kind)?;
     let core = crate::roles::entry_core(ix, &role.core, kind);
     let mut ev = mk_ev(ix);
     let builders: Vec<String> = cx.roles.iter().filter(|r| r.item_kind == kind).filter_map(|r| r.callee.clone()).collect::<std::collections::BTreeSet<_>>().into_iter().collect();
     for b in &builders { ev.stops.push((b.clone(), "opaque")); }
+    for r in record { ev.push_fns.push(r.clone()); }
     // parsers / constructors returning Result are summarised as symbolic results
     let cg = crate::roles::CallGraph::build(ix);
     let mut callees_all: Vec<String> = cg.edges.get(&core.qual).cloned().unwrap_or_default().into_iter().collect();
@@ -349,6 +352,37 @@ pub fn core_model(cx: &Cx, kind: &str) -> Option<CoreModel> {
     let mut uns = ev.unsupported.borrow().clone();
     uns.sort(); uns.dedup();
     Some(CoreModel { kind: kind.to_string(), outs, builders, site: site(&core), unsupported: uns })
+}
+
+/// ES-kinds-filled: before any helper attribute is parsed (type, variants, fields) the helper-kind set has been told which
+/// traits are derived - by the entries obtained from this very item
+pub fn kinds_filled_rule(cx: &Cx, rep: &mut Report) {
+    let ix = &cx.ix;
+    let Some(ext) = find_fn(ix, &|f| f.self_ty.as_deref() == Some("HelperAttributeKinds") && sig_text(f).contains("DeriveEntry") && f.sig.receiver().is_some()) else {
+        rep.fail("unanalysable", "HelperAttributeKinds", "extend", "the function recording the derived traits in the helper-kind set was not found", "item_type.rs", json!({})); return;
+    };
+    // consumers of the kind set: every function taking `&HelperAttributeKinds` and attributes / fields / variants to parse
+    let consumers: Vec<String> = ix.fns.values().flatten().filter(|f| { let s = sig_text(f); s.contains("&HelperAttributeKinds") && (s.contains("Result<Self>") || s.contains("Result<Vec<Self>>")) }).map(|f| f.qual.clone()).collect();
+    let mut record = consumers.clone();
+    record.push(ext.qual.clone());
+    for kind in ["struct", "enum"] {
+        let Some(cm) = core_model_with(cx, kind, &record) else { rep.fail("roles", kind, "core", "core function not found", "-", json!({})); continue };
+        let mut judged = 0;
+        let mut bad: Option<String> = None;
+        for (st, fl) in &cm.outs {
+            if !matches!(fl, Flow::Val(Val::Enum { var, .. }) | Flow::Ret(Val::Enum { var, .. }) if var == "Ok") { continue; }
+            let mut filled = false;
+            for e in &st.events {
+                if let Event::Push { func, args, .. } = e {
+                    if *func == ext.qual { if args.first().map(|a| a.contains("from_root")).unwrap_or(false) { filled = true; } else { bad = Some(format!("the derived traits recorded are not this item's entries: {:?}", args.first())); } }
+                    else if consumers.contains(func) && !filled { bad = Some(format!("`{func}` parses helper attributes before the derived traits were recorded")); }
+                }
+            }
+            if !filled { bad = Some("a successful path never records the derived traits in the helper-kind set".into()); }
+            judged += 1;
+        }
+        rep.check(bad.is_none() && judged > 0, "ES-kinds-filled", &format!("{kind} core"), "before-parsing", &format!("the helper-kind set is not filled from the item's own derive entries before helper attributes are parsed: {}", bad.unwrap_or_default()), &cm.site, json!({"paths": judged}));
+    }
 }
 
 /// ES-error-isolation (C05) / ES-isolation + DM-apply_dump (C19)
